@@ -46,7 +46,12 @@ public:
 
     void finish() {
         for (ndsize_t i = 0; i < nelms; i++) {
-            data[i] = buffer[i];
+            // an element that was never written reads back as a null pointer
+            if (buffer[i] != nullptr) {
+                data[i] = buffer[i];
+            } else {
+                data[i].clear();
+            }
         }
     }
 
